@@ -252,6 +252,12 @@ def impl_1d(c):
             ev[nm_] = 0.0 if np.array_equal(y_, ref_) else float(np.nan_to_num(np.abs(y_ - ref_), nan=np.inf).max())
         except Exception as e:
             ev[nm_] = 'raised %s: %s' % (type(e).__name__, str(e)[:80])
+    # a result the caller keeps must not change when the same spline is evaluated again on as many points
+    kept = s.eval(xs_)
+    kept0 = np.array(kept, copy=True)
+    again = s.eval(xs_[::-1].copy(), 1)
+    ev['kept-result'] = 0.0 if (np.array_equal(kept, kept0) and not np.shares_memory(kept, again)) else \
+        float(np.nan_to_num(np.abs(np.asarray(kept) - kept0), nan=np.inf).max()) or 'shares memory with the next result'
     out['evalvec'] = ev
     # data type of the interpolator and of the spline it fills need not agree (the Poisson solver fills real and complex
     # splines from a complex interpolator): real data must give the same coefficients through every combination
@@ -598,7 +604,10 @@ def check_1d(chk, c, r, stats):
         if j == 0:
             for nm_, dv_ in sorted(r.get('evalvec', {}).items()):
                 chk.count((spd['breaks'], spd['p'], spd['periodic'], 'evalvec', nm_), stratum='read-back:eval_vector:%s' % nm_)
-                if dv_ != 0.0:
+                if dv_ != 0.0 and nm_ == 'kept-result':
+                    chk.violation('splines.Spline1D.eval:result-not-owned', 'the values of the interpolant at its interpolation points, kept by the caller, change (by %s) '
+                                  'when the same spline is evaluated again on as many points, on %s' % (dv_, tag), dict(rep_j, what='kept result'))
+                elif dv_ != 0.0:
                     chk.violation('splines.Spline1D.eval_vector:out-array:%s' % nm_, 'the interpolant read back at its interpolation points through Spline1D.eval_vector '
                                   'into an out array held as %s differs from Spline1D.eval by %s on %s' % (nm_, dv_, tag), dict(rep_j, out_array=nm_))
         if j == 0 and r.get('input_modified') is not None:
